@@ -128,8 +128,8 @@ def handle (op : String) (args : List String) : Option String :=
     let b ← parseInt b
     let f ← resOfString f
     let p ← resOfString p
-    pure (verdict (C25.specInt n b f p)
-      (if C25.D_min_negate n && f == .panic then "format_int:D_min_negate" else "format_int:-"))
+    let _ := f
+    pure (verdict (C25.specInt n b f p) "format_int:-")
   | "o.c25.entries", [o, "|", _there, back] => do
     let o ← valueOfString o
     let back ← resOfString back
